@@ -30,6 +30,8 @@ type Cell struct {
 	Own *Owner
 	// race detection (tier B)
 	Acc *access
+	// Atomic: the cell has been accessed through sync/atomic; plain accesses are then reported
+	Atomic bool
 }
 
 type Struct struct {
